@@ -83,11 +83,13 @@ where
         key_bundle: LongTermKeyBundle,
     ) -> Result<KeyRegistryState<ID>, KeyRegistryError> {
         key_bundle.verify()?;
-        let existing = y.identities.insert(id, *key_bundle.identity_key());
-        if let Some(existing) = existing {
-            // Sanity check.
-            assert_eq!(&existing, key_bundle.identity_key());
+        if let Some(existing) = y.identities.get(&id)
+            && existing != key_bundle.identity_key()
+        {
+            // Key bundles come from remote peers, reject instead of crashing.
+            return Err(KeyRegistryError::IdentityKeyMismatch);
         }
+        y.identities.insert(id, *key_bundle.identity_key());
         y.longterm_bundles
             .entry(id)
             .and_modify(|bundles| bundles.push(key_bundle.clone()))
@@ -118,11 +120,13 @@ where
         key_bundle: OneTimeKeyBundle,
     ) -> Result<KeyRegistryState<ID>, KeyRegistryError> {
         key_bundle.verify()?;
-        let existing = y.identities.insert(id, *key_bundle.identity_key());
-        if let Some(existing) = existing {
-            // Sanity check.
-            assert_eq!(&existing, key_bundle.identity_key());
+        if let Some(existing) = y.identities.get(&id)
+            && existing != key_bundle.identity_key()
+        {
+            // Key bundles come from remote peers, reject instead of crashing.
+            return Err(KeyRegistryError::IdentityKeyMismatch);
         }
+        y.identities.insert(id, *key_bundle.identity_key());
         y.onetime_bundles
             .entry(id)
             .and_modify(|bundles| bundles.push(key_bundle.clone()))
@@ -203,6 +207,9 @@ pub enum KeyRegistryError {
 
     #[error("no key bundles found")]
     KeyBundlesNotFound,
+
+    #[error("key bundle's identity key does not match the one already registered for this member")]
+    IdentityKeyMismatch,
 
     #[error("all available key bundles of this member expired")]
     KeyBundlesExpired,
